@@ -299,4 +299,7 @@ pub fn possible_intersection<F>(""")]),
     M('set-intoiter-next_back-calls-next', ['C17'], [(ST, "        self.inner.next_back().map(|(k, _)| k)", "        self.inner.next().map(|(k, _)| k)")], {'C17': 'M-mirror'}),
     M('set-min-calls-max', ['C17'], [(ST, "        self.tree.min()\n", "        self.tree.max()\n")], {'C17': 'M-mirror'}),
     M('tree-max-uses-min_node', ['C17'], [(TR, "        self.max_node().map(|node| &node.key)", "        self.min_node().map(|node| &node.key)")], {'C17': 'M-'}),
+    # ---- both operand loops folded into one helper with a loop (seed s49 without the static)
+    B('queue-polygons-helper', ['C01', 'C05', 'C06', 'C07', 'C09', 'C13', 'C12', 'C03'], [(FQ, '    for polygon in subject {\n        contour_id += 1;\n        process_polygon(polygon.exterior(), true, contour_id, &mut event_queue, sbbox, true);\n        for interior in polygon.interiors() {\n            process_polygon(interior, true, contour_id, &mut event_queue, sbbox, false);\n        }\n    }\n\n    for polygon in clipping {\n        let exterior = operation != Operation::Difference;\n        if exterior {\n            contour_id += 1;\n        }\n        process_polygon(polygon.exterior(), false, contour_id, &mut event_queue, cbbox, exterior);\n        for interior in polygon.interiors() {\n            process_polygon(interior, false, contour_id, &mut event_queue, cbbox, false);\n        }\n    }\n\n    event_queue\n}\n', '    queue_polygons(subject, true, true, &mut contour_id, &mut event_queue, sbbox);\n    queue_polygons(clipping, false, operation != Operation::Difference, &mut contour_id, &mut event_queue, cbbox);\n\n    event_queue\n}\n\nfn queue_polygons<F>(\n    polygons: &[Polygon<F>],\n    is_subject: bool,\n    exterior: bool,\n    contour_id: &mut u32,\n    event_queue: &mut BinaryHeap<Rc<SweepEvent<F>>>,\n    bbox: &mut BoundingBox<F>,\n) where\n    F: Float,\n{\n    for polygon in polygons {\n        if exterior {\n            *contour_id += 1;\n        }\n        process_polygon(polygon.exterior(), is_subject, *contour_id, event_queue, bbox, exterior);\n        for interior in polygon.interiors() {\n            process_polygon(interior, is_subject, *contour_id, event_queue, bbox, false);\n        }\n    }\n}\n')]),
+    M('queue-polygons-helper-wrong-box', ['C05', 'C09'], [(FQ, '    for polygon in subject {\n        contour_id += 1;\n        process_polygon(polygon.exterior(), true, contour_id, &mut event_queue, sbbox, true);\n        for interior in polygon.interiors() {\n            process_polygon(interior, true, contour_id, &mut event_queue, sbbox, false);\n        }\n    }\n\n    for polygon in clipping {\n        let exterior = operation != Operation::Difference;\n        if exterior {\n            contour_id += 1;\n        }\n        process_polygon(polygon.exterior(), false, contour_id, &mut event_queue, cbbox, exterior);\n        for interior in polygon.interiors() {\n            process_polygon(interior, false, contour_id, &mut event_queue, cbbox, false);\n        }\n    }\n\n    event_queue\n}\n', '    queue_polygons(subject, true, true, &mut contour_id, &mut event_queue, sbbox);\n    queue_polygons(clipping, false, operation != Operation::Difference, &mut contour_id, &mut event_queue, sbbox);\n\n    event_queue\n}\n\nfn queue_polygons<F>(\n    polygons: &[Polygon<F>],\n    is_subject: bool,\n    exterior: bool,\n    contour_id: &mut u32,\n    event_queue: &mut BinaryHeap<Rc<SweepEvent<F>>>,\n    bbox: &mut BoundingBox<F>,\n) where\n    F: Float,\n{\n    for polygon in polygons {\n        if exterior {\n            *contour_id += 1;\n        }\n        process_polygon(polygon.exterior(), is_subject, *contour_id, event_queue, bbox, exterior);\n        for interior in polygon.interiors() {\n            process_polygon(interior, is_subject, *contour_id, event_queue, bbox, false);\n        }\n    }\n}\n')], {'C05': 'B-acc'}),
 ]
